@@ -37,6 +37,8 @@ SEEDS = [
     ('@namespace p "u";p|a{x:y}', '@namespace q "u";@namespace p "v";'),
     ('@namespace "u";a{x:y}', '@namespace q "u";@namespace p "v";'),
     ('', '@namespace q "u";@namespace p "v";'),
+    # the other sheet does not declare the URI (a rule that uses it cannot move there)
+    ('@namespace p "u";p|a{x:y}', '@namespace p "v";'),
     # rules in front of the @namespace rules: positions among @namespace rules and positions in cssRules differ
     ('@charset "utf-8";/*c*/@namespace q "v";@namespace p "u";p|a{x:y}', '@namespace q "u";@namespace p "v";'),
 ]
